@@ -40,9 +40,26 @@ class _Raise(Exception):
         self.value = value
 
 
+class BoolConst:
+    """Python's True/False as graph constants. Not `bool`, because True == 1 and False == 0 would make
+    ("const", False) and ("const", 0) the same dictionary key."""
+
+    __slots__ = ("v",)
+
+    def __init__(self, v):
+        self.v = v
+
+    def __bool__(self):
+        return self.v
+
+    def __repr__(self):
+        return "True" if self.v else "False"
+
+
+PyTrue, PyFalse = BoolConst(True), BoolConst(False)
 NONE = ("const", None)
-TRUE = ("const", True)
-FALSE = ("const", False)
+TRUE = ("const", PyTrue)
+FALSE = ("const", PyFalse)
 
 
 @dataclass
@@ -419,6 +436,8 @@ class Builder:
                 return t[1] == "IsNot"
         if t[0] == "cmp" and t[2][0] == "const" and t[3][0] == "const":
             a, b = t[2][1], t[3][1]
+            a = a.v if isinstance(a, BoolConst) else a
+            b = b.v if isinstance(b, BoolConst) else b
             try:
                 return {
                     "Eq": a == b, "NotEq": a != b, "Lt": a < b, "LtE": a <= b, "Gt": a > b, "GtE": a >= b,
@@ -560,6 +579,10 @@ class Builder:
         if isinstance(e, ast.Name):
             return self.name(e.id, env, ctx)
         if isinstance(e, ast.Constant):
+            if e.value is True:
+                return TRUE
+            if e.value is False:
+                return FALSE
             return ("const", e.value)
         if isinstance(e, ast.Attribute):
             return self.attr(self.ev(e.value, env, ctx), e.attr, ctx)
@@ -928,7 +951,7 @@ class Builder:
                     n = ("call", f, args, kwargs)
                     fo = self.fold(n)
                     if fo is not None:
-                        return ("const", fo)
+                        return TRUE if fo else FALSE
                     return n
                 if q in ("tuple", "list") and len(args) == 1 and not kwargs and isinstance(args[0], tuple) and args[0][0] in ("tuple", "list"):
                     return (q, args[0][1])
